@@ -38,17 +38,20 @@ Inductive val :=
 | VVoid
 | VNil
 | VClo (hdr : option opcode) (body : list instr) (caps : val)
-| VPair (a b : val).
+| VPair (a b : val)
+| VRef (a : nat).           (* handle of a heap cell: box, mutable vector, heap-allocated captured variable *)
 
 Record config := mkCfg {
   c_scanned : list opcode;   (* op codes whose payload visit_closure removes from the candidate set *)
   c_header : bool;           (* the scan looks at closure.header for instruction 0 *)
   c_follow : bool;           (* the value of a candidate found referenced is visited as well *)
-  c_snapshot : bool          (* failed build: restore snapshot (true) / SymbolMap::roll_back (false) *)
+  c_snapshot : bool;         (* failed build: restore snapshot (true) / SymbolMap::roll_back (false) *)
+  c_clear_marks : bool       (* recycle clears the heap mark bits (its visited set) before the walk *)
 }.
 
 (* the code as it is now *)
-Definition cfg_now : config := mkCfg scanned_ops scan_uses_header scan_follows_shadowed rollback_snapshot.
+Definition cfg_now : config :=
+  mkCfg scanned_ops scan_uses_header scan_follows_shadowed rollback_snapshot scan_clears_marks.
 
 Definition mem_op (o : opcode) (l : list opcode) : bool := existsb (op_eqb o) l.
 Definition refs_global (o : opcode) : bool := mem_op o interned_ops.
@@ -135,10 +138,13 @@ Record eng := mkE {
   sm : symmap;
   globals : list val;
   owner : list (option bid);     (* ghost: the binding living in each slot *)
-  nextb : bid                    (* ghost: next fresh binding identity *)
+  nextb : bid;                   (* ghost: next fresh binding identity *)
+  heap : list val                (* contents of the heap cells (closed.rs Heap: boxes, mutable vectors, captured
+                                    variables that are assigned); a cell that is allocated carries the mark bit
+                                    `reachable` -- allocate sets it, only a collection clears it *)
 }.
 
-Definition eng_new : eng := mkE sm_new [] [] 0.
+Definition eng_new : eng := mkE sm_new [] [] 0 [].
 
 Definition owner_of (e : eng) (s : slot) : option bid := nth s (owner e) None.
 
@@ -162,7 +168,12 @@ Inductive expr :=
 | EConst (n : nat)
 | ENil                                                 (* the empty list *)
 | EGlobal (x : name)                                   (* PUSH x *)
-| ELam (jit : bool) (body : list sinstr) (cap : expr)  (* closure creation; cap evaluated at creation *)
+| ELam (jit hc : bool) (body : list sinstr) (cap : expr) (* closure creation; cap evaluated at creation;
+                                                          hc: the captured variable is assigned somewhere, so it lives
+                                                          in a heap cell and the closure captures the cell *)
+| EBox (vec : bool) (e : expr)                         (* (box e) / (vector e): a new heap cell *)
+| EUnbox (e : expr)                                    (* contents of a cell: (unbox e); (vector-ref e 0) = ECar (EUnbox e) *)
+| ESetCell (vec : bool) (c e : expr)                   (* (set-box! c e) / (vector-set! c 0 e), value discarded *)
 | EPair (a b : expr)
 | ECar (e : expr)
 | ECdr (e : expr)
@@ -179,7 +190,10 @@ Inductive rexpr :=
 | RConst (n : nat)
 | RNil
 | RGlobal (s : slot) (b : option bid)
-| RLam (jit : bool) (body : list instr) (cap : rexpr)
+| RLam (jit hc : bool) (body : list instr) (cap : rexpr)
+| RBox (vec : bool) (e : rexpr)
+| RUnbox (e : rexpr)
+| RSetCell (vec : bool) (c e : rexpr)
 | RPair (a b : rexpr)
 | RCar (e : rexpr)
 | RCdr (e : rexpr)
@@ -195,7 +209,7 @@ Inductive rform := RDefine (s : slot) (e : rexpr) | RExpr (e : rexpr).
    returned by *that* add.  Ghost: a fresh binding now owns the slot. *)
 Definition add_define (e : eng) (x : name) : eng * slot :=
   let '(m', idx) := sm_add (sm e) x in
-  (mkE m' (globals e) (set_nth_pad None idx (Some (nextb e)) (owner e)) (S (nextb e)), idx).
+  (mkE m' (globals e) (set_nth_pad None idx (Some (nextb e)) (owner e)) (S (nextb e)) (heap e), idx).
 
 Fixpoint first_pass (e : eng) (fs : list form) : eng * list (option slot) :=
   match fs with
@@ -241,11 +255,15 @@ Fixpoint resolve_expr (e : eng) (defs passed : list name) (x : expr) : option re
   | EConst n => Some (RConst n)
   | ENil => Some RNil
   | EGlobal y => match resolve0 e defs passed y with Some s => Some (RGlobal s (owner_of e s)) | None => None end
-  | ELam jit body cap =>
+  | ELam jit hc body cap =>
       match resolve_body e body, resolve_expr e defs passed cap with
-      | Some b, Some c => Some (RLam jit b c)
+      | Some b, Some c => Some (RLam jit hc b c)
       | _, _ => None
       end
+  | EBox vec a => option_map (RBox vec) (resolve_expr e defs passed a)
+  | EUnbox a => option_map RUnbox (resolve_expr e defs passed a)
+  | ESetCell vec a b => match resolve_expr e defs passed a, resolve_expr e defs passed b with
+                        | Some a', Some b' => Some (RSetCell vec a' b') | _, _ => None end
   | EPair a b => match resolve_expr e defs passed a, resolve_expr e defs passed b with
                  | Some a', Some b' => Some (RPair a' b') | _, _ => None end
   | ECar a => option_map RCar (resolve_expr e defs passed a)
@@ -282,7 +300,7 @@ Definition build (c : config) (e : eng) (fs : list form) : eng * option (list rf
   | None =>
       if c_snapshot c
       then (e, None)
-      else (mkE (sm_roll_back (sm e1) index) (globals e1) (owner e1) (nextb e1), None)
+      else (mkE (sm_roll_back (sm e1) index) (globals e1) (owner e1) (nextb e1) (heap e1), None)
   end.
 
 (* ------------------------------------------------------------------ the recycler (closed.rs L104-160, L265-300) *)
@@ -303,19 +321,48 @@ Fixpoint refs_of (c : config) (v : val) : list slot :=
 
 Definition mem_slot (s : slot) (l : list slot) : bool := existsb (Nat.eqb s) l.
 
-(* [work]: values still to visit; [cands]: candidate set.  One round visits the whole work list; the candidates
-   it finds referenced leave the set and -- when the scan follows shadowed values -- their stored values form
-   the next work list.  At most |cands| + 1 rounds change anything (Proofs: [rounds_fuel_enough]). *)
-Fixpoint rounds (c : config) (g : list val) (fuel : nat) (work : list val) (cands : list slot) : list slot :=
+(* the heap cells a value mentions (captures, pair fields) *)
+Fixpoint cells_in (v : val) : list nat :=
+  match v with
+  | VRef a => [a]
+  | VClo _ _ caps => cells_in caps
+  | VPair a b => cells_in a ++ cells_in b
+  | _ => []
+  end.
+
+(* Visiting a work list of values with the mark bits as visited set (closed.rs visit_heap_allocated /
+   visit_mutable_vector -> mark_heap_reference / mark_heap_vector: `if is_reachable { return } mark_reachable;
+   push contents`): returns every payload the scan removed and the visited set afterwards.  Each level visits the
+   not-yet-marked cells the current values mention; at most |heap| + 1 levels (Proofs: heap_walk_spec). *)
+Fixpoint heap_walk (c : config) (hp : list val) (fuel : nat) (visited : list nat) (work : list val)
+  : list slot * list nat :=
+  match fuel with
+  | 0 => (flat_map (refs_of c) work, visited)
+  | S f =>
+      let fresh := nodup Nat.eq_dec
+                     (filter (fun a => Nat.ltb a (length hp) && negb (mem_slot a visited)) (flat_map cells_in work)) in
+      match fresh with
+      | [] => (flat_map (refs_of c) work, visited)
+      | _ => let '(r, vis) := heap_walk c hp f (fresh ++ visited) (map (fun a => nth a hp VVoid) fresh) in
+             (flat_map (refs_of c) work ++ r, vis)
+      end
+  end.
+
+(* [work]: values still to visit; [cands]: candidate set.  One round visits the whole work list (through the heap);
+   the candidates it finds referenced leave the set and -- when the scan follows shadowed values -- their stored
+   values form the next work list.  The visited set (the mark bits) persists across rounds.
+   At most |cands| + 1 rounds change anything (Proofs: rounds_spec). *)
+Fixpoint rounds (c : config) (g hp : list val) (fuel : nat) (visited : list nat) (work : list val) (cands : list slot)
+  : list slot :=
   match fuel with
   | 0 => cands
   | S f =>
-      let refs := flat_map (refs_of c) work in
+      let '(refs, vis) := heap_walk c hp (S (length hp)) visited work in
       let kept := filter (fun s => mem_slot s refs) cands in
       let rest := filter (fun s => negb (mem_slot s refs)) cands in
       match kept with
       | [] => cands
-      | _ => if c_follow c then rounds c g f (map (fun s => nth s g VVoid) kept) rest else rest
+      | _ => if c_follow c then rounds c g hp f vis (map (fun s => nth s g VVoid) kept) rest else rest
       end
   end.
 
@@ -341,13 +388,16 @@ Definition recycle (c : config) (e : eng) : eng :=
   let f := fl (sm e) in
   let cands := nodup Nat.eq_dec (shadowed f) in                       (* HashSet of the drained shadowed slots *)
   let roots := index_filter (fun i => negb (mem_slot i cands)) 0 (globals e) in
-  let left := rounds c (globals e) (S (length cands)) roots cands in
+  (* take_marks: the walk starts from cleared mark bits; if it did not, every allocated cell would look visited *)
+  let visited0 := if c_clear_marks c then [] else seq 0 (length (heap e)) in
+  let left := rounds c (globals e) (heap e) (S (length cands)) visited0 roots cands in
   let dead := filter (fun s => Nat.ltb s (length (globals e))) left in  (* `if index < roots.len()` *)
   mkE (mkSM (values (sm e)) (smap (sm e))
             (increment_generation (mkFL [] (rev dead ++ free f) (threshold f) (epoch f))))
       (void_slots dead 0 (globals e))
       (clear_owner dead 0 (owner e))
-      (nextb e).
+      (nextb e)
+      (heap e).
 
 (* Engine::gc_shadowed_roots *)
 Definition maybe_recycle (c : config) (e : eng) : eng :=
@@ -358,16 +408,29 @@ Definition maybe_recycle (c : config) (e : eng) : eng :=
 Definition is_call_op (o : opcode) : bool :=
   mem_op o [Op_CALLGLOBAL; Op_CALLGLOBALTAIL; Op_CALLGLOBALNOARITY; Op_CALLGLOBALTAILNOARITY; Op_CALLPRIMITIVE].
 
+(* Looking through holders: a cell handle -> the cell's contents; a one-element vector / struct -> its field. *)
+Fixpoint dig (fuel : nat) (hp : list val) (v : val) : val :=
+  match fuel with
+  | 0 => v
+  | S f => match v with
+           | VRef a => dig f hp (nth a hp VVoid)
+           | VPair x _ => dig f hp x
+           | _ => v
+           end
+  end.
+
 (* Calling a closure with one fixnum argument: the body's instructions run in order; the results of the
    global-touching ones are collected into a list (the generated Steel functions are (list <item> ...)):
      PUSH s          -> the value in slot s
      SET s           -> slot s := operand, yields the old value         (set! returns the old value)
      CALL* s         -> call the value in slot s with the operand
    (operand = the instruction's constant if it has one, else the closure's argument)
-     READCAPTURED    -> use the captured value: call it if it is a closure, else yield it
+     READCAPTURED    -> use the captured value (looked up through cells and holders): call it if it is a closure,
+                        else yield it
    A read of a slot beyond the global vector, or a call of a non-procedure, is a run-time error.
+   Closures of the generated family do not allocate or assign cells, so the heap is read-only here.
    Returns the global vector (effects before an error persist) and the result (None = error / out of fuel). *)
-Fixpoint call (fuel : nat) (g : list val) (f : val) (arg : nat) {struct fuel} : list val * option val :=
+Fixpoint call (fuel : nat) (hp : list val) (g : list val) (f : val) (arg : nat) {struct fuel} : list val * option val :=
   match fuel with
   | 0 => (g, None)
   | S fuel' =>
@@ -388,12 +451,12 @@ Fixpoint call (fuel : nat) (g : list val) (f : val) (arg : nat) {struct fuel} : 
                      else (g, None)
                    else if is_call_op o then
                      if Nat.ltb (i_pay i) (length g)
-                     then let '(g', r) := call fuel' g (nth (i_pay i) g VVoid) a in (g', option_map Some r)
+                     then let '(g', r) := call fuel' hp g (nth (i_pay i) g VVoid) a in (g', option_map Some r)
                      else (g, None)
                    else if op_eqb o Op_READCAPTURED then
-                     match caps with
-                     | VClo _ _ _ => let '(g', r) := call fuel' g caps a in (g', option_map Some r)
-                     | _ => (g, Some (Some caps))
+                     match dig fuel' hp caps with
+                     | VClo h' b' c' => let '(g', r) := call fuel' hp g (VClo h' b' c') a in (g', option_map Some r)
+                     | other => (g, Some (Some other))
                      end
                    else (g, Some None) in
                  match r1 with
@@ -407,54 +470,92 @@ Fixpoint call (fuel : nat) (g : list val) (f : val) (arg : nat) {struct fuel} : 
       end
   end.
 
-Fixpoint eval (fuel : nat) (g : list val) (x : rexpr) : list val * option val :=
+(* the run-time state: global vector and heap *)
+Definition st := (list val * list val)%type.
+
+Definition cell_content (vec : bool) (v : val) : val := if vec then VPair v VNil else v.
+
+Fixpoint eval (fuel : nat) (s : st) (x : rexpr) : st * option val :=
   match x with
-  | RConst n => (g, Some (VInt n))
-  | RNil => (g, Some VNil)
-  | RGlobal s _ => (g, if Nat.ltb s (length g) then Some (nth s g VVoid) else None)
-  | RLam jit body cap =>
-      let '(g1, c) := eval fuel g cap in
-      (g1, option_map (mk_closure jit body) c)
-  | RPair a b =>
-      let '(g1, va) := eval fuel g a in
-      match va with
-      | None => (g1, None)
-      | Some va' => let '(g2, vb) := eval fuel g1 b in (g2, option_map (VPair va') vb)
+  | RConst n => (s, Some (VInt n))
+  | RNil => (s, Some VNil)
+  | RGlobal sl _ => (s, if Nat.ltb sl (length (fst s)) then Some (nth sl (fst s) VVoid) else None)
+  | RLam jit hc body cap =>
+      let '(s1, c) := eval fuel s cap in
+      match c with
+      | None => (s1, None)
+      | Some c' =>
+          if hc
+          then ((fst s1, snd s1 ++ [c']), Some (mk_closure jit body (VRef (length (snd s1)))))
+          else (s1, Some (mk_closure jit body c'))
       end
-  | RCar a => let '(g1, v) := eval fuel g a in
-              (g1, match v with Some (VPair p _) => Some p | _ => None end)
-  | RCdr a => let '(g1, v) := eval fuel g a in
-              (g1, match v with Some (VPair _ q) => Some q | _ => None end)
-  | RCall f arg =>
-      let '(g1, vf) := eval fuel g f in
-      match vf with
-      | Some vf' => call fuel g1 vf' arg
-      | None => (g1, None)
-      end
-  | RSet s _ a =>
-      let '(g1, v) := eval fuel g a in
+  | RBox vec a =>
+      let '(s1, v) := eval fuel s a in
       match v with
-      | Some v' => if Nat.ltb s (length g1) then (set_nth s v' g1, Some (nth s g1 VVoid)) else (g1, None)
-      | None => (g1, None)
+      | None => (s1, None)
+      | Some v' => ((fst s1, snd s1 ++ [cell_content vec v']), Some (VRef (length (snd s1))))
       end
-  | RFail => (g, None)
+  | RUnbox a =>
+      let '(s1, v) := eval fuel s a in
+      (s1, match v with
+           | Some (VRef c) => if Nat.ltb c (length (snd s1)) then Some (nth c (snd s1) VVoid) else None
+           | _ => None
+           end)
+  | RSetCell vec a b =>
+      let '(s1, va) := eval fuel s a in
+      match va with
+      | Some (VRef c) =>
+          let '(s2, vb) := eval fuel s1 b in
+          match vb with
+          | Some v' => if Nat.ltb c (length (snd s2))
+                       then ((fst s2, set_nth c (cell_content vec v') (snd s2)), Some (VInt 0))
+                       else (s2, None)
+          | None => (s2, None)
+          end
+      | _ => (s1, None)
+      end
+  | RPair a b =>
+      let '(s1, va) := eval fuel s a in
+      match va with
+      | None => (s1, None)
+      | Some va' => let '(s2, vb) := eval fuel s1 b in (s2, option_map (VPair va') vb)
+      end
+  | RCar a => let '(s1, v) := eval fuel s a in
+              (s1, match v with Some (VPair p _) => Some p | _ => None end)
+  | RCdr a => let '(s1, v) := eval fuel s a in
+              (s1, match v with Some (VPair _ q) => Some q | _ => None end)
+  | RCall f arg =>
+      let '(s1, vf) := eval fuel s f in
+      match vf with
+      | Some vf' => let '(g', r) := call fuel (snd s1) (fst s1) vf' arg in ((g', snd s1), r)
+      | None => (s1, None)
+      end
+  | RSet sl _ a =>
+      let '(s1, v) := eval fuel s a in
+      match v with
+      | Some v' => if Nat.ltb sl (length (fst s1))
+                   then ((set_nth sl v' (fst s1), snd s1), Some (nth sl (fst s1) VVoid))
+                   else (s1, None)
+      | None => (s1, None)
+      end
+  | RFail => (s, None)
   end.
 
 (* run the forms in order; stop at the first error.  Results: the value of every form (define -> void). *)
-Fixpoint run_forms (fuel : nat) (g : list val) (code : list rform) : list val * option (list val) :=
+Fixpoint run_forms (fuel : nat) (s : st) (code : list rform) : st * option (list val) :=
   match code with
-  | [] => (g, Some [])
-  | RDefine s a :: r =>
-      let '(g1, v) := eval fuel g a in
+  | [] => (s, Some [])
+  | RDefine sl a :: r =>
+      let '(s1, v) := eval fuel s a in
       match v with
-      | None => (g1, None)
-      | Some v' => let '(g2, vs) := run_forms fuel (define_idx s v' g1) r in (g2, option_map (cons VVoid) vs)
+      | None => (s1, None)
+      | Some v' => let '(s2, vs) := run_forms fuel (define_idx sl v' (fst s1), snd s1) r in (s2, option_map (cons VVoid) vs)
       end
   | RExpr a :: r =>
-      let '(g1, v) := eval fuel g a in
+      let '(s1, v) := eval fuel s a in
       match v with
-      | None => (g1, None)
-      | Some v' => let '(g2, vs) := run_forms fuel g1 r in (g2, option_map (cons v') vs)
+      | None => (s1, None)
+      | Some v' => let '(s2, vs) := run_forms fuel s1 r in (s2, option_map (cons v') vs)
       end
   end.
 
@@ -465,8 +566,8 @@ Definition run_unit (c : config) (fuel : nat) (e : eng) (u : unit_) : eng * opti
   | (e1, None) => (e1, None)
   | (e1, Some code) =>
       let e2 := maybe_recycle c e1 in
-      let '(g, r) := run_forms fuel (globals e2) code in
-      (mkE (sm e2) g (owner e2) (nextb e2), r)
+      let '(s, r) := run_forms fuel (globals e2, heap e2) code in
+      (mkE (sm e2) (fst s) (owner e2) (nextb e2) (snd s), r)
   end.
 
 Fixpoint run_history (c : config) (fuel : nat) (e : eng) (h : list unit_) : eng * list (option (list val)) :=
@@ -497,6 +598,7 @@ Fixpoint render (v : val) : string :=
   | VVoid => "#<void>"
   | VNil => "()"
   | VClo _ _ _ => "#<procedure>"
+  | VRef _ => "#<cell>"
   | VPair a b =>
       if proper b
       then "(" ++ render a ++ (fix rest (t : val) : string :=
@@ -578,9 +680,20 @@ Fixpoint val_ok (e : eng) (v : val) : Prop :=
   | _ => True
   end.
 
-(* Bound: every closure stored anywhere in the global vector (directly, in a data structure, or captured by
-   another closure) is well bound; names map to distinct owned slots; shadowed slots stay owned until a
-   recycling round decides about them; slots handed out by [add] (free list, end of the table) are unowned. *)
+(* heap cells: [G] is a set of cell addresses that is closed (what a good cell mentions is good) and whose contents
+   are well bound; a value is good when it is well bound and every allocated cell it mentions is in G *)
+Definition cells_ok (hp : list val) (G : list nat) (v : val) : Prop :=
+  forall a, In a (cells_in v) -> a < length hp -> In a G.
+
+Definition vgood (e : eng) (hp : list val) (G : list nat) (v : val) : Prop := val_ok e v /\ cells_ok hp G v.
+
+Definition sok (e : eng) (G : list nat) (g hp : list val) : Prop :=
+  (forall s, vgood e hp G (nth s g VVoid)) /\ (forall a, In a G -> vgood e hp G (nth a hp VVoid)).
+
+(* Bound: every closure reachable from the global vector -- directly, in a data structure, captured by another
+   closure, or through heap cells (boxes, mutable vectors, assigned captured variables) -- is well bound; names map
+   to distinct owned slots; shadowed slots stay owned until a recycling round decides about them; slots handed out
+   by [add] (free list, end of the table) are unowned. *)
 Record Bound (e : eng) : Prop := mkBound {
   b_vals : forall s, val_ok e (nth s (globals e) VVoid);
   b_map_owned : forall x s, lookup (smap (sm e)) x = Some s -> owner_of e s <> None;
@@ -591,9 +704,11 @@ Record Bound (e : eng) : Prop := mkBound {
   b_free_nodup : NoDup (free (fl (sm e)));
   b_free_lt : forall s, In s (free (fl (sm e))) -> s < length (values (sm e));
   b_fresh_unowned : forall s, length (values (sm e)) <= s -> owner_of e s = None;
-  b_glob_len : length (globals e) <= length (values (sm e))
+  b_glob_len : length (globals e) <= length (values (sm e));
+  b_heap : exists G, sok e G (globals e) (heap e)
 }.
 
 (* the configuration facts the proofs need *)
 Definition config_sound (c : config) : Prop :=
-  (forall o, refs_global o = true -> scanned c o = true) /\ c_header c = true /\ c_follow c = true /\ c_snapshot c = true.
+  (forall o, refs_global o = true -> scanned c o = true) /\ c_header c = true /\ c_follow c = true /\
+  c_snapshot c = true /\ c_clear_marks c = true.
